@@ -417,7 +417,7 @@ def constraints_of(st):
 
 
 def R_const(ctx):
-    return ctx.facts.consts.get("%s::raw::R" % ctx.facts.crate, {}).get("val")
+    return ctx.batch_const()
 
 
 def ceil_div(v, r):
